@@ -35,6 +35,7 @@ type Result struct {
 	Evaluations uint64            `json:"evaluations"`
 	NonTrivial  []string          `json:"nontrivial_fingerprints"`
 	NTTruncated bool              `json:"nontrivial_truncated"`
+	NTPoints    map[string]uint64 `json:"nontrivial_points"` // enumerating properties: scenario fingerprint -> distinct non-trivial injection points
 	Steps       uint64            `json:"steps"`
 	Ticks       uint64            `json:"ticks"`
 	SimNS       uint64            `json:"sim_ns"`
@@ -100,7 +101,7 @@ func TestWorker(t *testing.T) {
 	maxViol := envInt("VERIF_MAX_VIOLATIONS", 2)
 	trace := os.Getenv("VERIF_TRACE") != "" // determinism gate: digest of every scenario + verdict
 
-	res := &Result{Property: id, Seed: seed, Shard: shard, Race: raceEnabled}
+	res := &Result{Property: id, Seed: seed, Shard: shard, Race: raceEnabled, NTPoints: map[string]uint64{}}
 	seen := map[uint64]struct{}{}
 	start := time.Now()
 	var digest uint64
@@ -113,9 +114,13 @@ func TestWorker(t *testing.T) {
 		r := world.Derive(seed, propLabel(id), uint64(shard), uint64(run))
 		sc := p.Gen(r, tier, shard+run*nshards)
 		env.NonTrivial = false
+		env.ExtraEvals, env.NTPoints = 0, 0
 		env.LogBuf.Reset()
 		v := props.SafeExec(p, sc, env)
-		res.Evaluations++
+		res.Evaluations += 1 + env.ExtraEvals
+		if env.NTPoints > 0 && len(res.NTPoints) < 40000 {
+			res.NTPoints[strconv.FormatUint(props.Fingerprint(sc), 16)] = env.NTPoints
+		}
 		if trace {
 			fp := props.Fingerprint(sc)
 			digest = world.Mix64(digest, fp)
